@@ -14,6 +14,7 @@ import (
 	"pgregory.net/rapid"
 
 	"github.com/scrapli/scrapligo/driver/generic"
+	"github.com/scrapli/scrapligo/driver/netconf"
 	"github.com/scrapli/scrapligo/driver/options"
 	"github.com/scrapli/scrapligo/util"
 
@@ -30,21 +31,30 @@ type Case struct {
 	// bare = "127.0.0.1", hashed = hashed form of the port-qualified name, otherhost = another
 	// address; right/wrong = the server's key / some other key.
 	KHList []string `json:"kh_list,omitempty"`
-	Auth       string `json:"auth"`        // password, key, both
-	User       string `json:"user"`
-	Password   string `json:"password"`
-	Config     bool   `json:"config"` // an ssh config file is given
+	// Netconf: the session is a NETCONF one (netconf.Driver, ssh subsystem) instead of a shell
+	Netconf bool `json:"netconf,omitempty"`
+	// Rewrite (known_hosts == has, strict): after a first successful session the file at the same
+	// path is rewritten with another key for this server; a new connection must then be refused
+	Rewrite  bool   `json:"rewrite,omitempty"`
+	Auth     string `json:"auth"` // password, key, both
+	User     string `json:"user"`
+	Password string `json:"password"`
+	Config   bool   `json:"config"` // an ssh config file is given
 }
 
-var khKinds = []string{"pq-right", "pq-wrong", "bare-right", "bare-wrong", "hashed-pq-right", "hashed-pq-wrong", "otherhost-right", "comment"}
+var khKinds = []string{"pq-right", "pq-wrong", "bare-right", "bare-wrong", "hashed-pq-right", "hashed-pq-wrong", "otherhost-right", "comment", "garbage"}
 
 // khExpect: "ok" (must connect), "fail" (must not), "" (the two ssh implementations legitimately
 // differ: first-entry-wins vs any-entry, and the fallback from port-qualified to bare names).
 func khExpect(list []string) string {
-	pqRight, pqWrong, bareRight := false, false, false
+	pqRight, pqWrong, bareRight, garbage := false, false, false, false
 
 	for _, e := range list {
 		switch e {
+		case "garbage":
+			// a damaged line: OpenSSH skips it, x/crypto/knownhosts refuses the whole file; either
+			// way it can never make a connection more acceptable
+			garbage = true
 		case "pq-right", "hashed-pq-right":
 			pqRight = true
 		case "pq-wrong", "hashed-pq-wrong":
@@ -55,6 +65,8 @@ func khExpect(list []string) string {
 	}
 
 	switch {
+	case pqRight && !pqWrong && garbage:
+		return ""
 	case pqRight && !pqWrong:
 		return "ok"
 	case pqRight && pqWrong:
@@ -74,6 +86,9 @@ func gen(t *rapid.T) Case {
 		c.KHList = rapid.SliceOfN(rapid.SampledFrom(khKinds), 1, 4).Draw(t, "khList")
 	}
 
+	c.Netconf = rapid.IntRange(0, 2).Draw(t, "netconf") == 0
+	c.Rewrite = rapid.Bool().Draw(t, "rewrite")
+
 	return c
 }
 
@@ -83,7 +98,7 @@ func genBase(t *rapid.T) Case {
 		NoStrict:   rapid.Bool().Draw(t, "noStrict"),
 		KnownHosts: rapid.SampledFrom([]string{"has", "other", "empty", "none", "list", "list"}).Draw(t, "knownHosts"),
 		Auth:       rapid.SampledFrom([]string{"password", "key", "both"}).Draw(t, "auth"),
-		User:       "u" + rapid.StringMatching(`[a-z0-9]{2,8}`).Draw(t, "user"),
+		User:       "u" + rapid.StringMatching(`[a-zA-Z0-9._\-]{2,8}`).Draw(t, "user"),
 		Password:   "Pw-" + rapid.StringMatching(`[a-zA-Z0-9]{6,12}`).Draw(t, "password"),
 		Config:     rapid.Bool().Draw(t, "config"),
 	}
@@ -113,6 +128,16 @@ func run(c Case) ev.Verdict {
 	defer srv.Close()
 
 	srv.Shell = sim.SimpleShell("srv1# ", func(line string) string { return "ok " + line + "\r\n" })
+	srv.Subsystem = func(_ string, ch ssh.Channel) {
+		_, _ = ch.Write([]byte(sim.HelloSpec{Caps: []string{sim.Cap10}, SessionID: "11", Layout: "pretty"}.Render()))
+
+		buf := make([]byte, 4096)
+		for {
+			if _, e := ch.Read(buf); e != nil {
+				return
+			}
+		}
+	}
 
 	keyPEM, keyPub, err := sim.GenClientKey()
 	if err != nil {
@@ -180,6 +205,8 @@ func run(c Case) ev.Verdict {
 				sb.WriteString(knownhosts.HashHostname(pq) + " " + key + "\n")
 			case strings.HasPrefix(e, "otherhost-"):
 				sb.WriteString(fmt.Sprintf("[10.9.8.7]:%d %s\n", srv.Port, key))
+			case e == "garbage":
+				sb.WriteString("damaged-entry-without-a-key\n")
 			}
 		}
 
@@ -218,7 +245,38 @@ func run(c Case) ev.Verdict {
 		opts = append(opts, options.WithSSHConfigFile(cfgPath))
 	}
 
-	d, err := generic.NewDriver("127.0.0.1", opts...)
+	// the session: a shell driven by the generic driver, or the netconf subsystem
+	type session struct {
+		open, close func() error
+		command     func() (string, error)
+	}
+
+	newSession := func() (*session, error) {
+		if c.Netconf {
+			nd, nerr := netconf.NewDriver("127.0.0.1", opts...)
+			if nerr != nil {
+				return nil, nerr
+			}
+
+			return &session{open: nd.Open, close: nd.Close}, nil
+		}
+
+		gd, gerr := generic.NewDriver("127.0.0.1", opts...)
+		if gerr != nil {
+			return nil, gerr
+		}
+
+		return &session{open: gd.Open, close: gd.Close, command: func() (string, error) {
+			r, e := gd.SendCommand("show Q")
+			if e != nil {
+				return "", e
+			}
+
+			return r.Result, nil
+		}}, nil
+	}
+
+	d, err := newSession()
 	if err != nil {
 		return ev.Fail("NewDriver: %v", err)
 	}
@@ -236,11 +294,16 @@ func run(c Case) ev.Verdict {
 	}
 
 	t0 := time.Now()
-	openErr := d.Open()
+	openErr := d.open()
 	took := time.Since(t0)
+	closed := false
 
 	if openErr == nil {
-		defer func() { _ = d.Close() }()
+		defer func() {
+			if !closed {
+				_ = d.close()
+			}
+		}()
 	}
 
 	if took > 9*time.Second {
@@ -258,9 +321,11 @@ func run(c Case) ev.Verdict {
 	users, passwords, keys, methods := srv.Snapshot()
 
 	if openErr == nil {
-		r, cerr := d.SendCommand("show Q")
-		if cerr != nil || !strings.Contains(r.Result, "ok show Q") {
-			return ev.Fail("session up but command failed: %v %+v", cerr, r)
+		if d.command != nil {
+			r, cerr := d.command()
+			if cerr != nil || !strings.Contains(r, "ok show Q") {
+				return ev.Fail("session up but command failed: %v %+v", cerr, r)
+			}
 		}
 
 		for _, u := range users {
@@ -298,6 +363,30 @@ func run(c Case) ev.Verdict {
 		if c.Auth == "password" {
 			if len(passwords) == 0 || passwords[len(passwords)-1] != c.Password {
 				return ev.Fail("server saw passwords %q, configured %q", passwords, c.Password)
+			}
+		}
+	}
+
+	// the file is consulted at connection time: rewritten with another key for this server, the
+	// same path must now refuse the connection
+	if c.Rewrite && c.KnownHosts == "has" && !c.NoStrict && openErr == nil {
+		_ = d.close()
+		closed = true
+
+		_, otherPub, kerr := sim.GenClientKey()
+		if kerr == nil {
+			wrong := strings.TrimSpace(string(ssh.MarshalAuthorizedKey(otherPub)))
+			_ = os.WriteFile(khPath, []byte(fmt.Sprintf("[127.0.0.1]:%d %s\n", srv.Port, wrong)), 0o600)
+
+			d2, derr := newSession()
+			if derr != nil {
+				return ev.Fail("second NewDriver: %v", derr)
+			}
+
+			if e2 := d2.open(); e2 == nil {
+				_ = d2.close()
+
+				return ev.Fail("%s transport: the known-hosts file now records another key for this server, yet a new strict connection was established", c.Transport)
 			}
 		}
 	}
@@ -437,6 +526,25 @@ func runGrid(t *testing.T) {
 			}
 
 			c := Case{Transport: tr, KnownHosts: "list", KHList: l, Auth: "password", User: fmt.Sprintf("grid%d", idx), Password: fmt.Sprintf("Pw-grid-%d", idx)}
+			v := prop.Exec(t, c)
+			ran++
+			ev.RecordExternal("grid", c, v)
+
+			if !v.OK {
+				ev.FailExternal(t, "grid", c, v)
+			}
+		}
+	}
+
+	// the file is read when connecting: rewritten between two sessions (shell and netconf)
+	for _, tr := range []string{"system", "standard"} {
+		for _, nc := range []bool{false, true} {
+			idx++
+			if idx%shards != shard {
+				continue
+			}
+
+			c := Case{Transport: tr, KnownHosts: "has", Rewrite: true, Netconf: nc, Auth: "password", User: fmt.Sprintf("grid%d", idx), Password: fmt.Sprintf("Pw-grid-%d", idx)}
 			v := prop.Exec(t, c)
 			ran++
 			ev.RecordExternal("grid", c, v)
